@@ -1822,6 +1822,40 @@ impl std::str::FromStr for Relation {
     }
 }
 
+#[cfg(deb822_verif)]
+fn verif_dump(node: &SyntaxNode, out: &mut String) {
+    out.push_str(&format!("({:?} ", node.kind()));
+    for child in node.children_with_tokens() {
+        match child {
+            NodeOrToken::Node(n) => verif_dump(&n, out),
+            NodeOrToken::Token(t) => {
+                out.push_str(&format!("{:?}:{} ", t.kind(), t.text().chars().count()))
+            }
+        }
+    }
+    out.push_str(") ");
+}
+
+#[cfg(deb822_verif)]
+macro_rules! verif_tree {
+    ($ast:ident) => {
+        impl $ast {
+            /// Verification hook: preorder dump of the syntax tree (node kinds, token kinds and lengths).
+            pub fn verif_tree(&self) -> String {
+                let mut out = String::new();
+                verif_dump(&self.0, &mut out);
+                out
+            }
+        }
+    };
+}
+#[cfg(deb822_verif)]
+verif_tree!(Relations);
+#[cfg(deb822_verif)]
+verif_tree!(Entry);
+#[cfg(deb822_verif)]
+verif_tree!(Relation);
+
 impl From<crate::lossy::Relation> for Relation {
     fn from(relation: crate::lossy::Relation) -> Self {
         let mut builder = Relation::build(&relation.name);
